@@ -3,7 +3,7 @@
 # Confirms in a scratch worktree (/tmp/confirm/wt): suite passes with change, demo fails with change, demo passes without.
 set -u
 dir=$1; name=$2; shift 2; feats="$*"
-WT=/tmp/confirm/wt
+WT=${CONFIRM_WT:-/tmp/confirm/wt}
 mkdir -p /tmp/confirm
 if [ ! -d $WT ]; then git -C /repo worktree add -q --detach $WT HEAD || exit 2; fi
 cd $WT || exit 2
